@@ -369,7 +369,7 @@ func gen(r *hx.Rand, tier string) []json.RawMessage {
 	add := func(in input) { out = append(out, hx.J(in)) }
 	nSmall, nBig := 60, 12
 	if tier == "thorough" {
-		nSmall, nBig = 600, 120
+		nSmall, nBig = 400, 60
 	}
 	// directed: the sibling-secondary corner, made likely by many siblings that each
 	// schedule a same-instant primary
